@@ -285,6 +285,12 @@ def _truth_generic(t: ast.expr, ep: bool) -> Optional[bool]:
         if isinstance(t.op, ast.And):
             return False if any(v is False for v in vals) else (True if all(v is True for v in vals) else None)
         return True if any(v is True for v in vals) else (False if all(v is False for v in vals) else None)
+    if isinstance(t, ast.Compare) and len(t.ops) == 1 and isinstance(t.left, ast.Constant) and ALIAS.get(
+            dotted(t.comparators[0]) or "") == "gpts":
+        # `1 < gpts`: read as `gpts > 1`
+        mirror = {ast.Lt: ast.Gt, ast.Gt: ast.Lt, ast.LtE: ast.GtE, ast.GtE: ast.LtE, ast.Eq: ast.Eq, ast.NotEq: ast.NotEq}
+        if type(t.ops[0]) in mirror:
+            t = ast.Compare(left=t.comparators[0], ops=[mirror[type(t.ops[0])]()], comparators=[t.left])
     if isinstance(t, ast.Compare) and len(t.ops) == 1 and ALIAS.get(dotted(t.left) or "") == "gpts" and isinstance(
             t.comparators[0], ast.Constant) and isinstance(t.comparators[0].value, int):
         c, op = t.comparators[0].value, t.ops[0]
